@@ -86,6 +86,15 @@ structure FatLineT (K : Type) where
   coeff : T3 K K K
 deriving Repr, BEq
 
+/-- the numeric state of an `EvenWalkIterator` (the curve is passed separately) -/
+structure EvenWalkT (K : Type) where
+  derivative : T3 (V2 K) (V2 K) (V2 K)
+  last_t : K
+  last_point : V2 K
+  last_increment : K
+  distance : K
+  max_error : K
+
 /-- `ClipResult` of curve_curve_clip.rs -/
 inductive ClipResult (K : Type) where
   | None
@@ -138,6 +147,19 @@ def fmax {K} [LT K] [DecidableLT K] [BEq K] (a b : K) : K := if a < b then b els
 
 /-- `for x in l { … }` as a left fold (list and initial state first, which helps elaboration) -/
 def foldlT {α β : Type} (l : List α) (init : β) (f : β → α → β) : β := List.foldl f init l
+
+/-- how a loop body ends when it does not simply run into the next iteration -/
+inductive LoopExit (σ ρ : Type) where
+  | brk (s : σ)      -- `break` (or fuel exhausted)
+  | ret (v : ρ)      -- `return v` from inside the loop
+
+/-- `loop { … }` / `while …` with fuel: `step` returns `inl s'` to continue with the new state, `inr r` to leave the loop -/
+def iterFuel {σ ρ : Type} : Nat → (σ → Sum σ ρ) → (σ → ρ) → σ → ρ
+  | 0, _, fin, s => fin s
+  | n + 1, step, fin, s =>
+    match step s with
+    | .inl s' => iterFuel n step fin s'
+    | .inr r => r
 
 /-- `v[i]` (Rust panics out of range; the model returns a default, and the properties never index out of range) -/
 def listGet {α} [Inhabited α] (l : List α) (i : Nat) : α := l[i]!
